@@ -34,6 +34,8 @@ def r1(ctx):
         site = '%s#write:AffContent.aff' % q
         if q in ALLOWED_WRITERS:
             ctx.ok('C04.R1', site, ALLOWED_WRITERS[q], ws[0][7])
+        elif q == 'AffTree::apply_func':
+            ctx.ok('C04.R1', site, 'rewrites the terminals in place (shape judged by C04.R2 apply_func#all-terminals)', ws[0][7])
         elif all(w[6] for w in ws):
             ctx.ok('C04.R1', site, 'writes a node value it owns (not yet part of a tree)', ws[0][7])
         else:
@@ -56,6 +58,18 @@ def r2(ctx):
             extra = [l for l in lits if not (l[0] == 'is' and is_call(l[1], 'Iterator::next'))]
             if any(is_call(x, 'Tree::terminal_indices') for x in walk(a[1])) and a[2] == ('param', 'aff_func') and not extra:
                 ok = True
+        if not ok and not list(b.calls_to('AffTree::apply_func_at_node')):
+            # the same rewrite done in place: for every item t of terminals_mut(): t.value.aff := aff_func ∘ t.value.aff, unconditionally
+            ws = [w for w in content_field_writes(F, 'aff') if w[0] is b]
+            good = bool(ws)
+            for w in ws:
+                tgt, val = w[4], w[5]
+                item = tgt[1][1] if (tgt[0] == 'field' and tgt[2] == 'aff' and tgt[1][0] == 'field' and tgt[1][2] == 'value') else None
+                extra = [l for l in literals(b, R, w[1]) if not (l[0] == 'is' and is_call(l[1], 'Iterator::next'))]
+                good = good and w[3] == 'assign' and item is not None and is_call(item, 'Iterator::next') and is_call(item[2][0], 'Tree::terminals_mut') and \
+                    item[2][0][2][0] == ('field', ('param', 'self'), 'tree') and val is not None and is_call(val, 'AffFuncBase::compose') and val[2][0] == ('param', 'aff_func') and \
+                    s(val[2][1]) == s(tgt) and not extra
+            ok = good
         if ok:
             ctx.ok('C04.R2', 'AffTree::apply_func#all-terminals', 'apply_func_at_node(leaf, aff_func) for every element of terminal_indices(), unconditionally: one common output dimension', b.span)
         else:
